@@ -115,4 +115,73 @@ Section Block.
     ac_val (rd_storage m (backing_of b) t a s) = Ok (s_stor (S_ t) a s).
   Proof. intros. rewrite rd_storage_val. f_equal. apply storage_inv. Qed.
 
+
+  (* Ordered commit moves a prefix of the block into the backing store (parallel_state.rs:296-359
+     applies the same classification: storage removed on destroy / create / empty-touch, changed slots
+     written).  Reading through a store that already holds the first c <= t transactions gives the
+     same value: a marker or slot version below t decides alone, and without one nothing below t
+     (hence below c) touched the slot. *)
+  Lemma reset_hit_none_mono : forall a t c, reset_hit m a t = None -> c <= t -> reset_hit m a c = None.
+  Proof.
+    intros a t c H Hc. induction Hc as [|t' Hc IH]; [assumption|]. apply IH.
+    rewrite reset_hit_S in H. destruct (m (LReset a) t') as [e|] eqn:E; [|assumption].
+    exfalso. subst m. rewrite publish_all_spec in E. destruct (nth_opt effs t') as [x|]; [|discriminate].
+    destruct (assoc_last (LReset a) (tx_writes bm x)) as [v|] eqn:Ea; [|discriminate].
+    inversion E; subst e. cbn [e_data] in H. apply assoc_last_In in Ea.
+    unfold tx_writes, writes_of in Ea. apply in_flat_map in Ea as [[a' acct] [_ Ea]]. cbn [fst snd] in Ea.
+    assert (Hv : v = VReset).
+    { unfold writes_of_account in Ea. destruct (classify acct).
+      - contradiction.
+      - apply in_app_iff in Ea as [Ea|Ea]; [destruct (bm a'); [contradiction|]; destruct Ea as [Ea|[]]; inversion Ea|].
+        destruct Ea as [Ea|[]]. now inversion Ea.
+      - apply in_app_iff in Ea as [Ea|Ea]; [destruct Ea as [Ea|[]]; now inversion Ea|].
+        apply in_app_iff in Ea as [Ea|Ea].
+        + unfold info_writes in Ea. apply in_app_iff in Ea as [Ea|Ea].
+          * destruct (code_changed _ _); [|contradiction]. destruct (i_code i); [|contradiction]. destruct Ea as [Ea|[]]; inversion Ea.
+          * destruct (negb (bm a') && _); [|contradiction]. destruct Ea as [Ea|[]]; inversion Ea.
+        + unfold slot_writes in Ea. apply in_map_iff in Ea as [y [Ea _]]. inversion Ea.
+      - apply in_app_iff in Ea as [Ea|Ea].
+        + unfold info_writes in Ea. apply in_app_iff in Ea as [Ea|Ea].
+          * destruct (code_changed _ _); [|contradiction]. destruct (i_code i); [|contradiction]. destruct Ea as [Ea|[]]; inversion Ea.
+          * destruct (negb (bm a') && _); [|contradiction]. destruct Ea as [Ea|[]]; inversion Ea.
+        + unfold slot_writes in Ea. apply in_map_iff in Ea as [y [Ea _]]. inversion Ea. }
+    subst v. discriminate.
+  Qed.
+
+  Lemma slot_hit_none_mono : forall a s t c, slot_hit m a s t = None -> c <= t -> slot_hit m a s c = None.
+  Proof.
+    intros a s t c H Hc. induction Hc as [|t' Hc IH]; [assumption|]. apply IH.
+    rewrite slot_hit_S in H. destruct (m (LStorage a s) t') as [e|] eqn:E; [|assumption].
+    exfalso. subst m. rewrite publish_all_spec in E. destruct (nth_opt effs t') as [x|]; [|discriminate].
+    destruct (assoc_last (LStorage a s) (tx_writes bm x)) as [v|] eqn:Ea; [|discriminate].
+    inversion E; subst e. cbn [e_data] in H. apply assoc_last_In in Ea.
+    unfold tx_writes, writes_of in Ea. apply in_flat_map in Ea as [[a' acct] [_ Ea]]. cbn [fst snd] in Ea.
+    assert (Hv : exists w, v = VStorage w).
+    { assert (Hi : forall sn i, In (LStorage a s, v) (info_writes bm sn a' i) -> exists w, v = VStorage w).
+      { intros sn i Hi. unfold info_writes in Hi. apply in_app_iff in Hi as [Hi|Hi].
+        - destruct (code_changed _ _); [|contradiction]. destruct (i_code i); [|contradiction]. destruct Hi as [Hi|[]]; inversion Hi.
+        - destruct (negb (bm a') && _); [|contradiction]. destruct Hi as [Hi|[]]; inversion Hi. }
+      assert (Hs : forall sl, In (LStorage a s, v) (slot_writes a' sl) -> exists w, v = VStorage w).
+      { intros sl Hs. unfold slot_writes in Hs. apply in_map_iff in Hs as [y [Hs _]]. inversion Hs. eauto. }
+      unfold writes_of_account in Ea. destruct (classify acct).
+      - contradiction.
+      - apply in_app_iff in Ea as [Ea|Ea]; [destruct (bm a'); [contradiction|]; destruct Ea as [Ea|[]]; inversion Ea|].
+        destruct Ea as [Ea|[]]. inversion Ea.
+      - apply in_app_iff in Ea as [Ea|Ea]; [destruct Ea as [Ea|[]]; inversion Ea|].
+        apply in_app_iff in Ea as [Ea|Ea]; eauto.
+      - apply in_app_iff in Ea as [Ea|Ea]; eauto. }
+    destruct Hv as [w ->]. discriminate.
+  Qed.
+
+  Definition committed_base (c : nat) : base :=
+    mkBase (s_info (S_ c)) (base_code b) (s_stor (S_ c)).
+
+  Theorem storage_committed_prefix : forall c t a s, c <= t ->
+    ac_val (rd_storage m (backing_of (committed_base c)) t a s) = Ok (s_stor (S_ t) a s).
+  Proof.
+    intros c t a s Hc. rewrite rd_storage_val. f_equal. rewrite <- storage_inv. cbn [committed_base base_stor].
+    destruct (reset_hit m a t) as [rk|] eqn:Er; destruct (slot_hit m a s t) as [[wk v]|] eqn:Ew; cbn [stor_val]; try reflexivity.
+    rewrite <- (storage_inv c a s).
+    now rewrite (reset_hit_none_mono a t c Er Hc), (slot_hit_none_mono a s t c Ew Hc).
+  Qed.
 End Block.
